@@ -78,6 +78,8 @@ pub fn generate(
     let context = Context { endianness: file.endianness.value, heirarchy };
 
     for (name, class) in classes.into_iter() {
+        #[cfg(feature = "verif-sim")]
+        crate::verif_sim::yield_point("java:write");
         class.write_to_fs(&dir.join(name).with_extension("java"), package, source, &context)?;
     }
 
@@ -89,6 +91,8 @@ fn generate_classes(file: &ast::File) -> (HashMap<String, Class>, ClassHeirarchy
     let mut heirarchy = ClassHeirarchy::new();
 
     for decl in file.declarations.iter() {
+        #[cfg(feature = "verif-sim")]
+        crate::verif_sim::yield_point("java:decl");
         match &decl.desc {
             // If this is a parent packet, make a new abstract class and defer parenthood to it.
             ast::DeclDesc::Packet { id, fields, parent_id, constraints }
